@@ -269,6 +269,28 @@ def numeric(ctx):
                 ctx.fail(cid, 'Quaternion.exp', 'raises:' + type(r).__name__, dict(P, law='log(exp)'), 'log(exp(q)) raised %r' % (r,))
             elif not np.all(np.isfinite(r)) or np.abs(r - q).max() > 1e-6 * sc:
                 ctx.fail(cid, 'Quaternion.exp', 'mismatch', dict(P, law='log(exp)'), 'log(exp(q)) differs from q by %.3g (q=%s)' % (np.abs(r - q).max(), q.tolist()))
+    # the same two identities, and the value of exp, when the receiver is a UnitQuaternion object (either sign of the quaternion)
+    UQ = sm.UnitQuaternion
+    for (gn, R), sg in itertools.product(alph.gen_SO3(tier, seed), (1, -1)):
+        u = sg * ref.r2q_ref(R)
+        u = u / math.sqrt(u @ u)
+        nv = float(np.linalg.norm(u[1:]))
+        if nv < 1e-7:
+            continue
+        cid = 'C12/explog/unit/%s/sign=%d' % (gn, sg)
+        if not ctx.want(cid):
+            continue
+        ctx.case(cid, key=cid)
+        P = dict(g=gn, sign=sg, receiver='UnitQuaternion')
+        mkq = lambda: UQ(u.copy(), norm=False, check=False)
+        want_exp = math.exp(u[0]) * np.r_[math.cos(nv), u[1:] / nv * math.sin(nv)]
+        for law, f, want in (('exp', lambda: mkq().exp().vec, want_exp), ('log(exp)', lambda: mkq().exp().log().vec, u), ('exp(log)', lambda: mkq().log().exp().vec, u)):
+            ok, r = call(f)
+            if not ok:
+                ctx.fail(cid, 'Quaternion.exp' if law != 'exp(log)' else 'Quaternion.log', 'raises:' + type(r).__name__, dict(P, law=law), '%s raised %r' % (law, r))
+            elif not np.all(np.isfinite(np.asarray(r, dtype=float))) or np.abs(np.asarray(r, dtype=float) - want).max() > 1e-6:
+                ctx.fail(cid, 'Quaternion.exp' if law != 'exp(log)' else 'Quaternion.log', 'mismatch', dict(P, law=law),
+                         '%s of the unit quaternion %s is %s, expected %s' % (law, u.tolist(), np.asarray(r).tolist(), want.tolist()))
     for tn, th in [(n, t) for n, t in alph.theta_alphabet(tier, seed) if 1e-7 < t < math.pi - 1e-7]:
         for xn, ax in alph.axes(tier, seed):
             q = np.r_[0.0, th * ax]
@@ -389,6 +411,61 @@ def dual_norm(ctx):
             ctx.fail(cid, 'DualQuaternion.norm', 'mismatch', P, 'norm of a unit dual quaternion is (%r, %r)' % (a, bq))
 
 
+def dual_mixed(ctx):
+    """products in which a UnitDualQuaternion object meets a general DualQuaternion (either side) or another unit one: the value is
+    the dual-number Hamilton product of the two 8-vectors whatever the classes of the operands, and the 8x8 matrix form agrees"""
+    import spatialmath as sm
+    tier, seed = ctx.tier, ctx.seed
+    rots = alph.gen_SO3(tier, seed)[:6]
+    trs = [('0', np.zeros(3)), ('g', np.array([0.5, -1.5, 2.0])), ('1e3', 1e3 * alph.unit((3, 1, 2)))]
+    gens8 = [np.arange(1.0, 9.0), np.array([2.0, -1, 0, 3, 1, 0, -2, 1]), np.array([0.0, 0, 0, 0, 1, 2, 3, 4]), np.array([3.0, 0, 0, 0, 0, 0, 0, 0])]
+
+    def prod8(a, b):
+        return np.r_[ref.qmul(a[:4], b[:4]), ref.qmul(a[:4], b[4:]) + ref.qmul(a[4:], b[:4])]
+    units = []
+    for (rn, R), (tn, t) in itertools.product(rots, trs):
+        units.append(('%s|t=%s' % (rn, tn), ref.rt(R, t)))
+    for ui, (un, T) in enumerate(units):
+        mku = lambda T=T: sm.UnitDualQuaternion(sm.SE3(T.copy()))
+        ok, uv = call(lambda: np.asarray(mku().vec, dtype=float))
+        if not ok:
+            continue
+        sc = max(1.0, float(np.abs(uv).max()))
+        for gi, a in enumerate(gens8):
+            cid = 'C12/dual/mixed/%s/a%d' % (un, gi)
+            if not ctx.want(cid):
+                continue
+            ctx.case(cid, key=cid)
+            P = dict(grid='dual-mixed', u=un.split('|')[0], a=gi)
+            tests = (('U*D', lambda: (mku() * dq(a)).vec, prod8(uv, a)), ('D*U', lambda: (dq(a) * mku()).vec, prod8(a, uv)),
+                     ('matrix(U)@D', lambda: mku().matrix() @ a, prod8(uv, a)), ('matrix(D)@U', lambda: dq(a).matrix() @ uv, prod8(a, uv)),
+                     ('(U*D)*D2', lambda: ((mku() * dq(a)) * dq(gens8[(gi + 1) % 4])).vec, prod8(prod8(uv, a), gens8[(gi + 1) % 4])),
+                     ('U*(D*D2)', lambda: (mku() * (dq(a) * dq(gens8[(gi + 1) % 4]))).vec, prod8(uv, prod8(a, gens8[(gi + 1) % 4]))))
+            for law, f, want in tests:
+                ok, r = call(f)
+                if not ok:
+                    ctx.fail(cid, 'DualQuaternion.mul', 'raises:' + type(r).__name__, dict(P, law=law), '%s raised %r' % (law, r))
+                    continue
+                r = np.asarray(r, dtype=float)
+                tol = 1e-9 * sc * max(1.0, float(np.abs(want).max()))
+                if r.shape != want.shape or not np.all(np.isfinite(r)) or np.abs(r - want).max() > tol:
+                    ctx.fail(cid, 'DualQuaternion.mul', 'mismatch', dict(P, law=law), '%s differs from the dual-number Hamilton product by %.3g' %
+                             (law, np.abs(r - want).max() if r.shape == want.shape else float('nan')))
+        for vn, T2 in units[(ui * 5) % len(units)::7]:
+            cid = 'C12/dual/mixed/%s/x/%s' % (un, vn)
+            if not ctx.want(cid):
+                continue
+            ctx.case(cid, key=cid)
+            ok, r = call(lambda: ((mku() * sm.UnitDualQuaternion(sm.SE3(T2.copy()))).vec, np.asarray(sm.UnitDualQuaternion(sm.SE3(T2.copy())).vec, dtype=float)))
+            P = dict(grid='dual-mixed', u=un.split('|')[0], v=vn.split('|')[0], law='U*U')
+            if not ok:
+                ctx.fail(cid, 'DualQuaternion.mul', 'raises:' + type(r).__name__, P, '%r' % (r,))
+                continue
+            want = prod8(uv, r[1])
+            if np.abs(np.asarray(r[0], dtype=float) - want).max() > 1e-9 * max(1.0, float(np.abs(want).max())):
+                ctx.fail(cid, 'DualQuaternion.mul', 'mismatch', P, 'U*U2 differs from the dual-number Hamilton product by %.3g' % np.abs(np.asarray(r[0], dtype=float) - want).max())
+
+
 def shards(tier, seed):
     out = []
     for d in (1, 2, 3):
@@ -399,7 +476,7 @@ def shards(tier, seed):
     for mode in (0, 1, 2):
         K = 8
         out += [('dual', k, K, mode) for k in range(K)]
-    out += [('dualbasis',), ('dualnorm',)]
+    out += [('dualbasis',), ('dualnorm',), ('dualmixed',)]
     return out
 
 
@@ -417,5 +494,7 @@ def run_shard(ctx, shard):
         dual_grid(ctx, shard[1], shard[2], shard[3])
     elif k == 'dualbasis':
         dual_basis(ctx)
+    elif k == 'dualmixed':
+        dual_mixed(ctx)
     else:
         dual_norm(ctx)
